@@ -311,6 +311,48 @@ def magnify(ch: Choices, model: dict, probes=None) -> dict:
         out = dict(out, props=list(out["props"]) + [[[v_], "affine_eq", [1 << sh, (1 << sh) * k_]]])
         if probes is not None:
             probes["large_magnitude_models"] += 1
+    return farshift(ch, out, probes)
+
+
+FAR = [1 << 30, -(1 << 30), (1 << 30) + (1 << 29), -(1 << 30) - (1 << 29), (1 << 30) - 3, -(1 << 30) + 2]
+TRANSLATION_INVARIANT = ("alldifferent", "lexicographic_leq", "max_eq", "max_leq", "min_eq", "min_geq", "dummy",
+                         "relation", "exactly_eq")
+
+
+def farshift(ch: Choices, model: dict, probes=None) -> dict:
+    """Domain magnitude: bounds near 2^30 in absolute value (each fits the documented 32 bits with room to spare; the
+    sum of two of them does not).  (a) shared domains moved by K with the offsets of their variables moved by -K: no
+    variable changes its values, so no constraint sees a difference, but the search heuristics work on the shared
+    domains (`(min + max) // 2` of split-low / mid-value, `max - min` of the variable heuristics) and the engine adds
+    the offsets back for the propagators.  (b) the variables themselves moved by K when every constraint of the model
+    commutes with a translation (relation tuples and the counted value of exactly_eq moved along; other constraints are
+    dropped from the model, at least one is kept): the propagators then work on large values.  The compiled engine
+    computes such sums in 64 bits; numpy 32-bit scalars (JIT disabled) wrap."""
+    if model.get("flavour") in ("circuit", "bigcircuit") or not ch.chance(1, 6, "far"):
+        return model
+    K = FAR[ch.choose(len(FAR), "far.k")]
+    n = len(model["shr"])
+    out = dict(model)
+    inv = [p for p in model["props"] if p[1] in TRANSLATION_INVARIANT]
+    if inv and ch.chance(1, 3, "far.values"):
+        out["shr"] = [[lo + K, hi + K] for lo, hi in model["shr"]]
+        props = []
+        for vs, alg, prm in inv:
+            if alg == "relation":
+                prm = [a + K for a in prm]
+            elif alg == "exactly_eq":
+                prm = [prm[0] + K] + list(prm[1:])
+            props.append([list(vs), alg, list(prm)])
+        out["props"] = props
+        if probes is not None:
+            probes["far_value_models"] += 1
+    else:
+        which = [True] * n if ch.chance(1, 2, "far.all") else [ch.chance(1, 2, "far.dom") for _ in range(n)]
+        out["shr"] = [[lo + K, hi + K] if which[d] else [lo, hi] for d, (lo, hi) in enumerate(model["shr"])]
+        out["off"] = [o - K if which[model["idx"][v]] else o for v, o in enumerate(model["off"])]
+        if probes is not None and any(which):
+            probes["far_shared_domain_models"] += 1
+    out["far"] = True
     return out
 
 
@@ -401,7 +443,9 @@ def gen_model(ch: Choices, opts: Optional[dict] = None) -> dict:
 
 # ------------------------------------------------------------------------------------------------ configurations
 def nonneg_model(model: dict) -> bool:
-    return all(lo >= 0 for lo, hi in model["shr"])
+    # cost tables have one entry per value of [0, max value]: models with far-away domains (gen.farshift) do not use
+    # the heuristics that need them
+    return all(lo >= 0 and hi < (1 << 16) for lo, hi in model["shr"])
 
 
 def cost_table(ch: Choices, model: dict, label: str) -> List[List[int]]:
